@@ -132,8 +132,9 @@ def run(ctx):
     finally:
         proj.literal_operands = orig
     generic_pipeline_check(ctx, [], more, lambda c, p, o, i: None, "C05-generated")
-    if not ctx.quick:
-        probe.run_render_probe(ctx, rng, n_crates=1, flavours=("string", "view"), sig_prefix="plurals", opts={"locale_pool": LOCALES})
+    # compiled code: ordinal and cardinal keys rendered by td_string! / td_display! / td! over locales with different CLDR patterns
+    probe.run_render_probe(ctx, rng, n_crates=ctx.budget(1, 3), flavours=("string", "display", "view"), sig_prefix="plurals", per_key=4,
+                           opts={"locales": ["en", "fr", "cy", "ru"], "long_key": False})     # en/cy have rich ordinal rules, ru rich cardinal ones
     ctx.assumptions += PARSER_ASSUMPTIONS + ["CLDR plural rules themselves (ICU4X compiled data) are modelled as an oracle, not verified"]
     finish_broken(ctx, f"{len(projects)} plural projects")
     write_evidence(ctx, RULE)
